@@ -13,7 +13,7 @@ import (
 // ------------------------------------------------------------------ messages
 
 func (a *Adapter) MessageSave(msg *t.Message) error {
-	a.mu.Lock()
+	a.lock()
 	defer a.mu.Unlock()
 	if err := a.enter("MessageSave", true, msg.Topic+"#"+strconv.Itoa(msg.SeqId)); err != nil {
 		return err
@@ -107,7 +107,7 @@ func (a *Adapter) MessageGetAll(topic string, forUser t.Uid, opts *t.QueryOpt) (
 }
 
 func (a *Adapter) MessageGetDeleted(topic string, forUser t.Uid, opts *t.QueryOpt) ([]t.DelMessage, error) {
-	a.mu.Lock()
+	a.lock()
 	defer a.mu.Unlock()
 	if err := a.enter("MessageGetDeleted", false, topic+" for "+forUser.String()); err != nil {
 		return nil, err
@@ -226,7 +226,7 @@ func deviceHasher(deviceID string) string {
 }
 
 func (a *Adapter) DeviceUpsert(uid t.Uid, def *t.DeviceDef) error {
-	a.mu.Lock()
+	a.lock()
 	defer a.mu.Unlock()
 	if err := a.enter("DeviceUpsert", true, def.DeviceId); err != nil {
 		return err
@@ -242,7 +242,7 @@ func (a *Adapter) DeviceUpsert(uid t.Uid, def *t.DeviceDef) error {
 }
 
 func (a *Adapter) DeviceGetAll(uids ...t.Uid) (map[t.Uid][]t.DeviceDef, int, error) {
-	a.mu.Lock()
+	a.lock()
 	defer a.mu.Unlock()
 	if err := a.enter("DeviceGetAll", false, ""); err != nil {
 		return nil, 0, err
@@ -262,7 +262,7 @@ func (a *Adapter) DeviceGetAll(uids ...t.Uid) (map[t.Uid][]t.DeviceDef, int, err
 }
 
 func (a *Adapter) DeviceDelete(uid t.Uid, deviceID string) error {
-	a.mu.Lock()
+	a.lock()
 	defer a.mu.Unlock()
 	if err := a.enter("DeviceDelete", true, deviceID); err != nil {
 		return err
@@ -284,7 +284,7 @@ func (a *Adapter) DeviceDelete(uid t.Uid, deviceID string) error {
 // ------------------------------------------------------------------ credentials
 
 func (a *Adapter) CredUpsert(cred *t.Credential) (bool, error) {
-	a.mu.Lock()
+	a.lock()
 	defer a.mu.Unlock()
 	if err := a.enter("CredUpsert", true, cred.Method+":"+cred.Value); err != nil {
 		return false, err
@@ -336,7 +336,7 @@ func (a *Adapter) CredUpsert(cred *t.Credential) (bool, error) {
 }
 
 func (a *Adapter) CredDel(uid t.Uid, method, value string) error {
-	a.mu.Lock()
+	a.lock()
 	defer a.mu.Unlock()
 	if err := a.enter("CredDel", true, method+":"+value); err != nil {
 		return err
@@ -365,7 +365,7 @@ func (a *Adapter) CredDel(uid t.Uid, method, value string) error {
 }
 
 func (a *Adapter) CredConfirm(uid t.Uid, method string) error {
-	a.mu.Lock()
+	a.lock()
 	defer a.mu.Unlock()
 	if err := a.enter("CredConfirm", true, method); err != nil {
 		return err
@@ -396,7 +396,7 @@ func (a *Adapter) CredConfirm(uid t.Uid, method string) error {
 }
 
 func (a *Adapter) CredFail(uid t.Uid, method string) error {
-	a.mu.Lock()
+	a.lock()
 	defer a.mu.Unlock()
 	if err := a.enter("CredFail", true, method); err != nil {
 		return err
@@ -420,7 +420,7 @@ func (c *credRow) toCred() t.Credential {
 }
 
 func (a *Adapter) CredGetActive(uid t.Uid, method string) (*t.Credential, error) {
-	a.mu.Lock()
+	a.lock()
 	defer a.mu.Unlock()
 	if err := a.enter("CredGetActive", false, method); err != nil {
 		return nil, err
@@ -435,7 +435,7 @@ func (a *Adapter) CredGetActive(uid t.Uid, method string) (*t.Credential, error)
 }
 
 func (a *Adapter) CredGetAll(uid t.Uid, method string, validatedOnly bool) ([]t.Credential, error) {
-	a.mu.Lock()
+	a.lock()
 	defer a.mu.Unlock()
 	if err := a.enter("CredGetAll", false, method); err != nil {
 		return nil, err
@@ -461,7 +461,7 @@ func (s *State) file(id t.Uid) *fileRow {
 }
 
 func (a *Adapter) FileStartUpload(fd *t.FileDef) error {
-	a.mu.Lock()
+	a.lock()
 	defer a.mu.Unlock()
 	if err := a.enter("FileStartUpload", true, fd.Id); err != nil {
 		return err
@@ -476,7 +476,7 @@ func (a *Adapter) FileStartUpload(fd *t.FileDef) error {
 }
 
 func (a *Adapter) FileFinishUpload(fd *t.FileDef, success bool, size int64) (*t.FileDef, error) {
-	a.mu.Lock()
+	a.lock()
 	defer a.mu.Unlock()
 	if err := a.enter("FileFinishUpload", true, fd.Id); err != nil {
 		return nil, err
@@ -522,7 +522,7 @@ func (a *Adapter) FileGet(fid string) (*t.FileDef, error) {
 }
 
 func (a *Adapter) FileDeleteUnused(olderThan time.Time, limit int) ([]string, error) {
-	a.mu.Lock()
+	a.lock()
 	defer a.mu.Unlock()
 	if err := a.enter("FileDeleteUnused", true, ""); err != nil {
 		return nil, err
@@ -555,7 +555,7 @@ func (a *Adapter) FileDeleteUnused(olderThan time.Time, limit int) ([]string, er
 }
 
 func (a *Adapter) FileLinkAttachments(topic string, userId, msgId t.Uid, fids []string) error {
-	a.mu.Lock()
+	a.lock()
 	defer a.mu.Unlock()
 	if len(fids) == 0 || (topic == "" && msgId.IsZero() && userId.IsZero()) {
 		return t.ErrMalformed
@@ -620,7 +620,7 @@ func (a *Adapter) FileLinkAttachments(topic string, userId, msgId t.Uid, fids []
 // ------------------------------------------------------------------ persistent cache
 
 func (a *Adapter) PCacheGet(key string) (string, error) {
-	a.mu.Lock()
+	a.lock()
 	defer a.mu.Unlock()
 	if err := a.enter("PCacheGet", false, key); err != nil {
 		return "", err
@@ -634,7 +634,7 @@ func (a *Adapter) PCacheGet(key string) (string, error) {
 }
 
 func (a *Adapter) PCacheUpsert(key string, value string, failOnDuplicate bool) error {
-	a.mu.Lock()
+	a.lock()
 	defer a.mu.Unlock()
 	if strings.Contains(key, "%") {
 		return t.ErrMalformed
@@ -658,7 +658,7 @@ func (a *Adapter) PCacheUpsert(key string, value string, failOnDuplicate bool) e
 }
 
 func (a *Adapter) PCacheDelete(key string) error {
-	a.mu.Lock()
+	a.lock()
 	defer a.mu.Unlock()
 	if err := a.enter("PCacheDelete", true, key); err != nil {
 		return err
@@ -669,7 +669,7 @@ func (a *Adapter) PCacheDelete(key string) error {
 }
 
 func (a *Adapter) PCacheExpire(keyPrefix string, olderThan time.Time) error {
-	a.mu.Lock()
+	a.lock()
 	defer a.mu.Unlock()
 	if keyPrefix == "" {
 		return t.ErrMalformed
